@@ -124,8 +124,20 @@ def r11_close(ctx):
                         f'{meth}() on a closed port: {oc} / {pm.device_events(oc.log[i:])}', construct=f'mido/ports.py::BaseOutput.{meth}::closed')
     # __del__ closes
     o, delf = ctx.p.lookup_method(base, '__del__')
-    ok = delf is not None and any(unparse(c.func) == 'self.close' for c in astq.calls(delf.node))
-    ctx.require(ok, 'R11.1', '__del__', w, 'BasePort.__del__ does not close the port', construct=f'{base.qname}::__del__')
+    holder = {}
+
+    def thunk_del():
+        port = pm.new_port(ai, ctx, 'BaseIOPort', [], {})
+        holder['port'] = port
+        if delf is not None:
+            ai.call_function(delf, [port], {})
+            ai.call_function(delf, [port], {})
+        return port
+    outs = ai.explore(thunk_del)
+    ok = delf is not None and len(outs) == 1 and outs[0].kind == 'return' and len(pm.device_events(outs[0].log, '_close')) == 1 \
+        and holder['port'].attrs.get('closed') is True
+    ctx.require(ok, 'R11.1', '__del__', w, f'garbage collecting an open port must release the device exactly once: {outs}',
+                construct=f'{base.qname}::__del__')
     for q in ai.inlined:
         ctx.functions.add(q)
 
